@@ -671,7 +671,19 @@ class Parser:
                 fret = self.type()
             return Node('tfn', line, args=fargs, ret=fret)
         if self.at_kw('dyn') or self.at_kw('impl'):
-            self.err("dyn/impl types are not supported")
+            # parsed, so that the item around it survives; rejected as a TYPE by the translator (conv_type)
+            self.p += 1
+            segs = []
+            while True:
+                if self.t.kind == 'lifetime':
+                    self.p += 1
+                else:
+                    self.eat('?')
+                    b = self.type()
+                    segs = segs or list(getattr(b, 'segs', ['?']))
+                if not self.eat('+'):
+                    break
+            return Node('tdyn', line, segs=['dyn'] + segs, args=[])
         if self.eat('!'):
             return Node('tnever', line)
         segs = []
